@@ -553,6 +553,14 @@ func genJob(r *RNG, paths []PathSpec, small bool, salt ...string) *Recipe {
 	if r.Chance(0.25) {
 		rec.Ops = append(rec.Ops, Op{K: "save", F: &FSPlan{Target: "fresh"}})
 	}
+	if paths == nil && r.Chance(0.06) {
+		// a job that fails a lot (invalid fragment rendered repeatedly) next to jobs that must not care
+		rec.Frags = append(rec.Frags, &Node{K: "bad"})
+		for i := r.Range(3, 6); i > 0; i-- {
+			rec.Ops = append(rec.Ops, Op{K: r.Pick([]string{"render_frag", "render_frag_nofile"}), I: len(rec.Frags) - 1})
+		}
+		rec.Ops = append(rec.Ops, Op{K: "render"})
+	}
 	for i := r.Intn(3); i > 0; i-- {
 		switch {
 		case len(rec.Frags) > 0 && r.Chance(0.4):
